@@ -74,7 +74,7 @@ func genDomain(t *rapid.T, ic bool) string {
 func gen(t *rapid.T) Case {
 	c := Case{Icpt: rapid.Bool().Draw(t, "icpt")}
 	var pool []string
-	n := rapid.IntRange(2, 12).Draw(t, "npool")
+	n := rapid.IntRange(2, rig.Up(12)).Draw(t, "npool")
 	for len(pool) < n {
 		if rapid.IntRange(0, 3).Draw(t, "burst") == 0 {
 			suf := rapid.SampledFrom(suffixes).Draw(t, "bsuffix")
@@ -90,7 +90,7 @@ func gen(t *rapid.T) Case {
 		}
 	}
 	live := map[string]bool{}
-	for i, m := 0, rapid.IntRange(1, 20).Draw(t, "nsteps"); i < m; i++ {
+	for i, m := 0, rapid.IntRange(1, rig.Up(20)).Draw(t, "nsteps"); i < m; i++ {
 		var s Step
 		var liveList []string
 		for _, d := range pool {
